@@ -50,7 +50,7 @@ func (r *runner) hammer(a int, stop <-chan struct{}, wg *sync.WaitGroup) {
 			// connected: counted, not a failure (props.d: accept-queue semantics are the runtime's)
 			r.traffic.reset++
 			r.traffic.mu.Unlock()
-		case g < 0 && ans == ansBroken && r.abortWin.Load() >= 0 && r.sc.cfgs[r.abortWin.Load()].has(a):
+		case g < 0 && (ans == ansBroken || ans == ansReset) && r.abortWin.Load() >= 0 && r.sc.cfgs[r.abortWin.Load()].has(a):
 			// accepted by the HTTP server of a config whose Start was then refused: abortStart closes
 			// that server hard (http.Server.Close), connections it had accepted included
 			r.traffic.broken++
